@@ -1,7 +1,7 @@
 """Registry of implemented checks -> MANIFEST.json (bin/mkmanifest)."""
 CHECKS = {}
 # checks reviewed by the lead (soaked over seeds, kill-checked); only these are registered in MANIFEST.json
-APPROVED = {"C01", "C02", "C03", "C21", "C45", "C28", "C29", "C43", "C44", "C04", "C05", "C06", "C15", "C16", "C07", "C11", "C38", "C39", "C23", "C24", "C25", "C35", "C37", "C40", "C41", "C42", "C46", "C31", "C32", "C12", "C13", "C14", "C26", "C27", "C30", "C19", "C20", "C22"}
+APPROVED = {"C01", "C02", "C03", "C21", "C45", "C28", "C29", "C43", "C44", "C04", "C05", "C06", "C15", "C16", "C07", "C11", "C38", "C39", "C23", "C24", "C25", "C35", "C37", "C40", "C41", "C42", "C46", "C31", "C32", "C12", "C13", "C14", "C26", "C27", "C30", "C19", "C20", "C22", "C08", "C09", "C10", "C17", "C18", "C33", "C34", "C36"}
 NA_DEFAULT = "check not built yet in this framework (work in progress); not claimed"
 
 def reg(pid, category, text, note, technique, design_ref=None, engine=None):
